@@ -51,9 +51,12 @@ CHECKS["C03"] = dict(
         "oracle but are outside the Lean model (testing). String constants are modelled at "
         "the text level (std::quoted on output, the lexer rule, std::quoted on input): C03_string_roundtrip for every non-empty value without a double quote.",
    note="Trusted: Lean kernel, axioms propext/Quot.sound/Classical.choice, translate/printer.py + exprgrammar.py, harness/c02.cpp, c03q.cpp. "
-        "The theorem is about token streams; that lexing the printed text gives those tokens is checked per case, not proved. Literal "
-        "formatting of doubles and of -2147483648, the quantifier binder type text and the strategy / MITL query syntax are not modelled: deviations there "
-        "are found by the differential oracle only (4 known findings listed in known_findings.d/C03.json; 6 defects repaired by fix: commits). "
+        "The theorem is about token streams; that lexing the printed text gives those tokens is checked per case, not proved. The digits of "
+        "a double literal (kept as text in the model; the library's shortest round-trip text is predicted by the check), the quantifier binder type "
+        "text and the strategy / MITL query syntax are not modelled: deviations there are found by the differential oracle only (1 known finding "
+        "listed in known_findings.d/C03.json: binder types printed as s-expressions; 9 defect keys repaired by fix: commits, the last four -- bounds "
+        "l<=e, --2147483648, 6-digit doubles -- after they had first been recorded as known). The exception classes of the printer on the pinned tree "
+        "(all of the form callee-is-not-a-name) are listed in corpus/c03/exception_classes.txt; a class that is not on the list is reported. "
         "That bison's LALR automaton on the query productions behaves as the hand-written query parser is validated by comparing trees, not proved.",
    technique="Lean 4 print/parse round-trip theorem over tables translated from expression.cpp and parser.y + differential correspondence",
    design="4/C03")
